@@ -1005,6 +1005,17 @@ where
         }
     }
 
+    /// Verification hook: run the acceptor's request processing on a PDU
+    /// without any socket. Returns the reply PDU and, on acceptance,
+    /// the negotiated maximum PDU length of the requestor.
+    #[cfg(feature = "verif-hooks")]
+    pub fn verif_process_rq(&self, msg: Pdu) -> std::result::Result<(Pdu, u32), Pdu> {
+        match self.process_a_association_rq(msg) {
+            Ok((pdu, negotiated, _)) => Ok((pdu, negotiated.peer_max_pdu_length)),
+            Err((pdu, _)) => Err(pdu),
+        }
+    }
+
     /// Negotiate an association with the given TCP stream.
     pub fn establish(&self, mut socket: TcpStream) -> Result<ServerAssociation<TcpStream>> {
         ensure!(
